@@ -15,6 +15,9 @@ def main():
     os.makedirs(dst, exist_ok=True)
     shutil.copy(os.path.join(inc, "%s.patch" % letter), os.path.join(dst, "patch.diff"))
     shutil.copy(os.path.join(inc, "demo_%s.py" % letter), os.path.join(dst, "demo.py"))
+    for fn in os.listdir(inc):  # helper modules shared by the demos
+        if fn.startswith("_") and fn.endswith(".py"):
+            shutil.copy(os.path.join(inc, fn), os.path.join(dst, fn))
     if os.path.exists(os.path.join(inc, "notes.md")):
         shutil.copy(os.path.join(inc, "notes.md"), os.path.join(dst, "notes.md"))
     cmd = ["/venv/bin/python", os.path.join(VERIF, "tools", "seedcheck.py"), dst, prop] + rest
